@@ -200,3 +200,11 @@ def kwarg(root, name: str, value_snippet: str | None = None, func: str | None = 
                                       for e in tfind(k.value, value_snippet))):
                 out.append(n)
     return out
+
+
+def stmt_is(stmt, pattern: str, env0=None) -> bool:
+    """does the single statement ``stmt`` itself match the pattern?"""
+    kind, pat = compile_pat(pattern)
+    if kind == "expr":
+        pat = [ast.Expr(value=pat)]
+    return len(pat) == 1 and match(pat[0], stmt, dict(env0 or {}))
